@@ -334,7 +334,7 @@ def run_standard_case(cfg, want=("c01", "c05"), keep_output=False):
     fs = None
     model = None
     try:
-        with mon.installed(), killer.installed(), (pmon.installed() if "c09" in want else contextlib.nullcontext()):
+        with mon.installed(), killer.installed(), (pmon.installed() if "c09" in want else contextlib.nullcontext()), std_draw_cap():
             for attempt in range(200):
                 model = make(cfg.get("model", "G2"))
                 guards.append(Guarded(model))
@@ -350,6 +350,9 @@ def run_standard_case(cfg, want=("c01", "c05"), keep_output=False):
                     continue
             else:
                 res["errs"].append(("run-did-not-finish-after-200-resumes", ""))
+    except DrawCap as e:
+        res["draw_cap"] = str(e)
+        fs = None
     except Exception as e:
         import traceback
 
@@ -471,6 +474,65 @@ def ins_lattice(seed, quick, resume_subsets=True):
             model = a.pop("model", "G2")
             cfgs.append({"kind": "ins", "model": model, "seed": seed, "kwargs": _ins_kwargs(a), "resume": "every"})
     return cfgs
+
+
+class DrawCap(BaseException):
+    """A population / draw loop exceeded its draw-count bound (never a statistical judgement:
+    the bound is 2000 batches for one call of ImportanceFlowProposal.draw)."""
+
+
+@contextlib.contextmanager
+def ins_draw_cap(limit=2000):
+    from nessai.proposal.importance import ImportanceFlowProposal as IFP
+
+    o = IFP.draw
+
+    def draw(self, n, *a, **k):
+        cnt = [0]
+        orig = self.flow.sample_ith
+
+        def sample_ith(i, N=1):
+            cnt[0] += 1
+            if cnt[0] > limit:
+                raise DrawCap(f"ImportanceFlowProposal.draw: {cnt[0]} batches drawn from flow {i} without collecting {n} samples inside the unit hypercube")
+            return orig(i, N=N)
+
+        self.flow.sample_ith = sample_ith
+        try:
+            return o(self, n, *a, **k)
+        finally:
+            self.flow.__dict__.pop("sample_ith", None)
+
+    IFP.draw = draw
+    try:
+        yield
+    finally:
+        IFP.draw = o
+
+
+@contextlib.contextmanager
+def std_draw_cap(limit=20000):
+    """Bound on the latent draws of one FlowProposal.populate call (backstop against hangs)."""
+    from nessai.proposal.flowproposal import FlowProposal as FP
+
+    o_dlp, o_pop = FP.draw_latent_prior, FP.populate
+    state = {"n": 0}
+
+    def dlp(self, n):
+        state["n"] += 1
+        if state["n"] > limit:
+            raise DrawCap(f"FlowProposal.populate: {state['n']} latent draws for one pool of {self.poolsize}")
+        return o_dlp(self, n)
+
+    def pop(self, *a, **k):
+        state["n"] = 0
+        return o_pop(self, *a, **k)
+
+    FP.draw_latent_prior, FP.populate = dlp, pop
+    try:
+        yield
+    finally:
+        FP.draw_latent_prior, FP.populate = o_dlp, o_pop
 
 
 class InsMonitor:
@@ -683,7 +745,7 @@ def run_ins_case(cfg, want=("c03", "c05"), keep_output=False, run_kwargs=None):
     model = None
     started = False
     try:
-        with mon.installed(), killer.installed():
+        with mon.installed(), killer.installed(), ins_draw_cap():
             for attempt in range(100):
                 model = make(cfg.get("model", "G2"))
                 guards.append(Guarded(model))
@@ -702,6 +764,10 @@ def run_ins_case(cfg, want=("c03", "c05"), keep_output=False, run_kwargs=None):
                     continue
             else:
                 res["errs"].append(("run-did-not-finish-after-100-resumes", ""))
+    except DrawCap as e:
+        # C20's business (known finding for reparameterisation=None); other checks skip the run
+        res["draw_cap"] = str(e)
+        fs = None
     except Exception as e:
         import traceback
 
